@@ -48,6 +48,7 @@ type Run struct {
 	trusted []string
 	explain string
 	notDec  string
+	only    map[string]bool // sub-run of siblingRules: only these guarded rules are evaluated
 }
 
 func NewRun(prop, tier string, seed int) *Run {
@@ -92,6 +93,9 @@ func (r *Run) Note(format string, a ...interface{}) {
 
 // Guard runs one rule and converts a panic inside it into an undischarged obligation.
 func (r *Run) Guard(rule string, f func()) {
+	if r.only != nil && !r.only[rule] {
+		return
+	}
 	defer func() {
 		if e := recover(); e != nil {
 			st := string(debug.Stack())
@@ -104,6 +108,71 @@ func (r *Run) Guard(rule string, f func()) {
 		}
 	}()
 	f()
+}
+
+// siblingRules evaluates rules that belong to another property's check and records their obligations under this
+// property's own rule id: the mechanisms several properties rest on (the context-aware I/O template, the oneway guard,
+// the Service mutex discipline, the token character sets ...) are necessary conditions of each of them, and a change
+// that breaks one is a violation of every property that depends on it, not only of the one where the rule was written.
+// The construct text names the rule of origin.
+func siblingRules(r *Run, p *Prog, from string, rules []string, as string) {
+	if r.only != nil {
+		return // a sub-run evaluates its own rules only
+	}
+	d := registry[from]
+	if d == nil {
+		r.Unresolved(as, "rules of "+from)
+		return
+	}
+	sub := NewRun(from, r.Tier, r.Seed)
+	sub.P = r.P
+	sub.only = map[string]bool{}
+	want := map[string]bool{}
+	for _, x := range rules {
+		sub.only[x] = true
+		want[x] = true
+	}
+	func() {
+		defer func() {
+			if e := recover(); e != nil {
+				r.Ob(as, "-", "rule evaluation aborted", token.NoPos, false, fmt.Sprintf("evaluating %s.%v: %v", from, rules, e))
+			}
+		}()
+		d.run(sub, p)
+	}()
+	floor := 0
+	for _, x := range rules {
+		floor += sub.floors[x]
+	}
+	n := 0
+	for _, k := range sub.order {
+		o := sub.obligs[k]
+		if !want[o.Rule] {
+			continue
+		}
+		n++
+		c := *o
+		c.Construct = "[" + from + "." + o.Rule + "] " + o.Construct
+		c.Rule = as
+		kk := c.Key()
+		if prev, seen := r.obligs[kk]; seen {
+			if prev.OK && !c.OK {
+				*prev = c
+			}
+			continue
+		}
+		r.obligs[kk] = &c
+		r.order = append(r.order, kk)
+		if c.Func != "" {
+			r.fnSeen[c.Func] = true
+		}
+	}
+	if floor > 0 {
+		r.floors[as] += floor
+	}
+	if n == 0 {
+		r.Unresolved(as, "rules "+strings.Join(rules, ",")+" of "+from+" matched nothing")
+	}
 }
 
 type knownFile struct {
